@@ -31,7 +31,8 @@ def build(rng, perm, refs, L, rebind, shared):
                 elif kind == 'block-events': conds.append('(c_block_by %d true)' % t)
                 elif kind == 'accumulate': mods.append('(m_accumulate %d)' % t)
             mods.append(PROBE)
-            binds = [bind(ids, key(i % 4), [PROBE], [c_script('KImplicit', [rng.choice(STATES) for _ in range(L + 2)])] if rng.random() < .3 else [])]
+            # some bindings need modifier keys: what an input looks like has no bearing on when its action is evaluated
+            binds = [bind(ids, key(i % 4, rng.choice([0, 0, CONTROL, SHIFT | ALT, CONTROL | SHIFT])), [PROBE], [c_script('KImplicit', [rng.choice(STATES) for _ in range(L + 2)])] if rng.random() < .3 else [])]
         else:
             binds = [bind(ids, key((i + 1) % 4), [PROBE], ['(c_chord %d)' % aids_[rng.randrange(n)]])]
         amx = idlist(ids, mods); acx = idlist(ids, conds)
@@ -41,7 +42,7 @@ def build(rng, perm, refs, L, rebind, shared):
     cfg = {(c, e): s for e in ents}
     steps = [sop(spawn(e, [c])) for e in ents] + [frame(raw())]
     for k in range(L):
-        steps.append(frame(raw(keys=[x for x in range(4) if rng.random() < .6]), rand_dt(rng)))
+        steps.append(frame(raw(keys=[x for x in range(4) if rng.random() < .6] + [m for m in (100, 102, 104) if rng.random() < .5]), rand_dt(rng)))
     return scenario([c], ents, cfg, steps)
 
 REFK = ['chord', 'block', 'block-events', 'accumulate', 'none']
@@ -88,7 +89,7 @@ def nontrivial(case, out):
 STAGES = [dict(name='visibility', mode='app', coq='Check.C13c', cases=cases, nontrivial=nontrivial, shard=25,
                exhaustive={'thorough': True, 'quick': True},
                rule='one context (exclusive, or shared with two holders) with 2-4 actions in every binding order (6 / 24 permutations), chord / block-by / events-only block-by / accumulate-by references '
-                    'forwards, backwards, to self and to an action absent from the context, some action bound a second time in the middle, actions with two references (two blockers looking at different actions); scripted states over 6-12 frames. Every instrumented condition and '
+                    'forwards, backwards, to self and to an action absent from the context, some action bound a second time in the middle, bindings with and without modifier keys, actions with two references (two blockers looking at different actions); scripted states over 6-12 frames. Every instrumented condition and '
                     'modifier records the states of all actions it is shown. non-trivial = a cross-action reference present and some Fired state; distinct = distinct scenario text')]
 CLAUSES = {1: 'a condition/modifier was shown a state other than: current frame for earlier-bound actions, previous frame for later-bound ones and the action itself',
            2: 'the set of actions visible to a condition is not the set of actions of the context', 3: 'Chord did not return the referenced action\'s shown state (None if absent)',
